@@ -65,6 +65,9 @@ type connScen struct {
 		Location string `json:"location"`
 	} `json:"serve"`
 	Features []string `json:"features"`
+	// Pre: requests made first on the SAME egress.Service (its state - connection pool, any caching - is then
+	// warm when the request under test is made); each is a request the policy allows
+	Pre []string `json:"pre"`
 }
 
 var loopbacks = []string{"127.0.0.2", "127.0.0.3", "::1"}
@@ -394,6 +397,18 @@ func runConnect(l *trace.Log, raw []byte) {
 	method := sc.Method
 	if method == "" {
 		method = "GET"
+	}
+	for _, pu := range sc.Pre {
+		pu = st.subst(pu)
+		l.Add("PreRequest", "url", pu)
+		pctx, pcancel := context.WithTimeout(context.Background(), 5*time.Second)
+		presp, perr := svc.Do(pctx, pprocutils.HTTPRequest{Method: "GET", URL: pu})
+		pcancel()
+		pmsg := ""
+		if perr != nil {
+			pmsg = perr.Error()
+		}
+		l.Add("PreResponse", "url", pu, "status", presp.StatusCode, "err", pmsg)
 	}
 	l.Add("Request", "url", u, "method", method, "secret", sc.Secret)
 	t0 := time.Now()
